@@ -180,7 +180,11 @@ func File(t *rapid.T, o Opts) *ir.File {
 	}
 	// messages, leaves first
 	// rapid's integers are biased towards small values: message counts are sampled from a flat table instead
-	nMsg := rapid.SampledFrom([]int{1, 2, 3, 3, 4, 4, 5, 5, 6, 7}).Draw(t, "nmsg")
+	sizes := []int{1, 2, 3, 3, 4, 4, 5, 5, 6, 7}
+	for n := 8; n <= o.MaxMessages; n++ { // the thorough tier allows larger files
+		sizes = append(sizes, n)
+	}
+	nMsg := rapid.SampledFrom(sizes).Draw(t, "nmsg")
 	if nMsg > o.MaxMessages {
 		nMsg = o.MaxMessages
 	}
